@@ -122,3 +122,14 @@ S["C14"] = dict(title="Errors stay in documented classes; 'not submitted' means 
     "fmt.Errorf is modelled structurally: %w operands become Unwrap children, texts are not modelled"],
   bounds={"quick":"error trees of depth <= 2 (<= 7 nodes) over 7 leaf kinds; one request per path, <= 1 write fault, <= 1 store fault","thorough":"16 leaf kinds"},
   outside=["error texts","pending-connect state for blocking requests (C18 lockwrite harness)"])
+S["C11"] = dict(title="Every request completes and gets its own response", technique=TECH+"; arbitrary response bodies against registered requests; scripted interleaving through a guarded hook point for the ping slot", harnesses=[
+    H("verifH_C11_correlation", "L11.b SUBACK/UNSUBACK with arbitrary identifier and codes against 1..2 registered requests at free identifiers: only the addressed one is answered, SubscribeError lists its own failed filters in order", reach=("granted","failed-filters","unsuback","count-mismatch","unsolicited-tolerated")),
+    H("verifH_C11_pingslot", "L11.d Ping A's submission fails; read routine goes offline; Ping B installs its callback before A cleans up: B must still be answered", reach=()),
+    H("verifH_C17_slots", "L11.a startTx/endTx"),
+    H("verifH_C14_methods", "L11.c every Subscribe/Unsubscribe/Ping call returns under answer / broker failure / connection loss / close / quit", T({"wfaults":1,"storefaults":1}), T({"wfaults":2,"storefaults":1}), ("ok","classified","quit")),
+    H("verifH_C10_offline", "connection loss releases pending subscribe and ping with ErrBreak", reach=("offline",)),
+  ],
+  assumptions=["hook point verifHookPoint(\"ping:submit-failed\") in Ping (build tag verif, no-op otherwise) lets the harness place the read routine's toOffline and the second Ping between the failed write and the slot clean-up; the interleaving itself is one the Go scheduler may produce",
+    "cooperative goroutine model; ticker-driven polling runs only when nothing else can"],
+  bounds={"quick":"<= 2 registered requests, <= 2 filters, SUBACK bodies of 3..4 bytes; 2 pings","thorough":"same"},
+  outside=["the 8192-identifier reuse horizon (by design)","more than 2 concurrent requests except through the per-slot argument"])
